@@ -948,6 +948,50 @@ fn special_views<F: FB>(d: &mut Draw) -> Outcome {
         }
         d.configs += 8;
     }
+    // swap_elements exchanges whatever the two slots hold - also two values that compare equal (zeros of opposite sign)
+    // or that compare unequal to themselves (NaN of either sign)
+    {
+        let (x, y): (F, F) = match d.int(0, 2) {
+            0 => (F::of(0.0), F::of(-0.0)),
+            1 => (F::nan(), -F::nan()),
+            _ => (special, -special),
+        };
+        macro_rules! swap_m {
+            ($M:ident, $n:expr) => {{
+                let (a, b) = (d.below($n * $n), d.below($n * $n));
+                let mut flat: Vec<F> = (0..$n * $n).map(|i| F::of(i as f64 + 0.5)).collect();
+                flat[a] = x;
+                if b != a {
+                    flat[b] = y;
+                }
+                let nested: [[F; $n]; $n] = std::array::from_fn(|c| std::array::from_fn(|r| flat[c * $n + r]));
+                let mut m = $M::from(nested);
+                let mut want = flat.clone();
+                want.swap(a, b);
+                let r = catches(move || { m.swap_elements((a / $n, a % $n), (b / $n, b % $n)); let back: [[F; $n]; $n] = m.into(); back.concat() });
+                match r {
+                    Err(e) => return Outcome::Fail { sig: "swap_elements-special-panics", msg: format!("{}::swap_elements panics on {:?}: {}", stringify!($M), flat, e) },
+                    Ok(got) => ensure!(fbits(&got) == fbits(&want), "swap_elements-special", "{}::swap_elements(({},{}),({},{})) on entries with bit patterns {:x?} gives {:x?}", stringify!($M), a / $n, a % $n, b / $n, b % $n, fbits(&flat), fbits(&got)),
+                }
+                d.configs += 1;
+            }};
+        }
+        swap_m!(Matrix2, 2);
+        swap_m!(Matrix3, 3);
+        swap_m!(Matrix4, 4);
+        // vectors (Array::swap_elements)
+        let (a, b) = (d.below(4), d.below(4));
+        let mut comps = [F::of(0.5), F::of(1.5), F::of(2.5), F::of(3.5)];
+        comps[a] = x;
+        if b != a {
+            comps[b] = y;
+        }
+        let mut v = Vector4::from(comps);
+        let mut want = comps;
+        want.swap(a, b);
+        v.swap_elements(a, b);
+        ensure!(fbits(&[v.x, v.y, v.z, v.w]) == fbits(&want), "swap_elements-special", "Vector4::swap_elements({},{}) on components with bit patterns {:x?}", a, b, fbits(&comps));
+    }
     pass(if special.is_nan() { "nan" } else if special == F::zero() { "zero" } else if special.is_infinite() { "infinity" } else { "other" }, true)
 }
 
@@ -1020,8 +1064,8 @@ pub fn property() -> Property {
     add!("mint-euler", "f64", mint_euler, 100, 5000, 16, "every generated triple");
     add!("from_value_bits-f32", "f32", from_value_bits_f32, 200, 10_000, 8, "every value (raw bit patterns, signed zeros, the smallest subnormal, infinities, NaN)");
     add!("from_value_bits-f64", "f64", from_value_bits_f64, 200, 10_000, 8, "every value (raw bit patterns, signed zeros, the smallest subnormal, infinities, NaN)");
-    add!("special_value_views-f32", "f32", special_views::<f32>, 200, 10_000, 8, "every value (NaN of either sign, -0.0, infinities, the smallest subnormal, raw bit patterns) in every slot");
-    add!("special_value_views-f64", "f64", special_views::<f64>, 200, 10_000, 8, "every value (NaN of either sign, -0.0, infinities, the smallest subnormal, raw bit patterns) in every slot");
+    add!("special_value_views-f32", "f32", special_views::<f32>, 200, 10_000, 24, "every value (NaN of either sign, -0.0, infinities, the smallest subnormal, raw bit patterns) in every slot");
+    add!("special_value_views-f64", "f64", special_views::<f64>, 200, 10_000, 24, "every value (NaN of either sign, -0.0, infinities, the smallest subnormal, raw bit patterns) in every slot");
     Property {
         id: "C16",
         title: "Layout, indexing, conversions and swizzles preserve every component in order",
